@@ -28,11 +28,21 @@ pub static SLOW_US: AtomicI64 = AtomicI64::new(0);
 fn tid() -> u64 { unsafe { libc::syscall(libc::SYS_gettid) as u64 } }
 fn push(e: Ev) {
     let i = LEN.fetch_add(1, SeqCst);
-    if i < CAP { unsafe { LOG[i] = e; } }
+    if i < CAP { unsafe { let p = std::ptr::addr_of_mut!(LOG[i]); let k = e.kind; std::ptr::write_volatile(p, Ev { kind: 0, ..e }); std::sync::atomic::fence(SeqCst); std::ptr::write_volatile(std::ptr::addr_of_mut!((*p).kind), k); } }
 }
-pub fn reset() { LEN.store(0, SeqCst); }
+pub fn reset() { let n = len(); for i in 0..n { unsafe { std::ptr::write_volatile(std::ptr::addr_of_mut!(LOG[i].kind), 0); } } LEN.store(0, SeqCst); }
 pub fn len() -> usize { LEN.load(SeqCst).min(CAP) }
-pub fn get(i: usize) -> Ev { unsafe { LOG[i] } }
+/// a slot is reserved (LEN advanced) before it is written: a reader that overtakes a writer on another thread (the C runtime's own
+/// mprotect while a thread starts) waits for the slot to be filled instead of reading an empty event
+pub fn get(i: usize) -> Ev {
+    unsafe {
+        let p = std::ptr::addr_of!(LOG[i]);
+        let mut spins = 0u64;
+        while std::ptr::read_volatile(std::ptr::addr_of!((*p).kind)) == 0 && spins < 50_000_000 { std::hint::spin_loop(); spins += 1; }
+        std::sync::atomic::fence(SeqCst);
+        std::ptr::read_volatile(p)
+    }
+}
 pub fn overflowed() -> bool { LEN.load(SeqCst) > CAP }
 
 pub unsafe fn raw_mmap(addr: *mut libc::c_void, len: usize, prot: i32, flags: i32, fd: i32, off: i64) -> *mut libc::c_void {
